@@ -170,7 +170,7 @@ def ghbn_model(it, bound, node):
     r = VRef(hasher_ref(nm.t), ('_Hasher',))
     ctx.assume(hasher_name(r.t) == nm.t)
     ctx.assume(r.t >= 0)
-    ctx.known_class[simp(r.t).get_id()] = '_Hasher'
+    ctx.known_class[ctx.keep(simp(r.t))] = '_Hasher'
     ctx.write_field(r.t, '_fed', VBytes(b''))
     return r
 
@@ -233,7 +233,7 @@ def _hash_file_contract():
         it.engine.registry[('gemato/hash.py', 'get_hash_by_name')] = c2
         f = bound['f']
         it.ctx.write_field(f.t, '_pos', VInt(0))
-        it.ctx.known_class[simp(f.t).get_id()] = '_Reader'
+        it.ctx.known_class[it.ctx.keep(simp(f.t))] = '_Reader'
 
         def dict_hook(itp, cell, other, node):
             return None
